@@ -172,10 +172,14 @@ fn boolish<const N: usize>() {
     let f = is_lit_nocase(b, "n") || is_lit_nocase(b, "no") || is_lit_nocase(b, "f") || is_lit_nocase(b, "false") || is_lit_nocase(b, "off") || is_lit_nocase(b, "0");
     let got = crate::util::str_to_bool(s);
     assert!(got == if t { Some(true) } else if f { Some(false) } else { None });
-    kani::cover!(t && len == 3);
-    kani::cover!(f && len == 3);
+    kani::cover!(t && len == if N < 3 { N } else { 3 });
+    kani::cover!(f && len == if N < 3 { N } else { 3 });
     kani::cover!(!t && !f && len == N);
 }
+
+#[kani::proof]
+#[kani::unwind(7)]
+pub(super) fn boolish_language_2() { boolish::<2>(); }
 
 #[kani::proof]
 #[kani::unwind(8)]
